@@ -1177,6 +1177,10 @@ class WorkflowConductor(object):
         if retry_tally >= retry_count:
             return False
 
+        # A canceled task cannot be retried.
+        if task_status == statuses.CANCELED:
+            return False
+
         if task_status in statuses.ABENDED_STATUSES and task_state_entry["retry"]["when"] is None:
             return True
 
